@@ -534,6 +534,166 @@ func TestIndexPathsV2(t *testing.T) {
 	evid.Exhaustive("v2 index paths of depth 1..3 over a nested value x {plain keys, recorded keys, as a condition}", n)
 }
 
+// judgeRuns loads the script once and runs it len(c.Modes) times, pmode() returning c.Modes[k] in run k; every run is
+// compared with the reference started from nothing.
+func judgeRuns(t rk.Failer, slot string, c *sem.Case, key string, labels ...string) {
+	c.V2 = true
+	c.NoHistory = true
+	c.Print(nil)
+	var ld *sem.LoadedV2
+	for k, m := range c.Modes {
+		c.Mode = m
+		v := sem.Decide(c, func() sem.ImplOut {
+			if ld == nil {
+				ld = sem.LoadV2(c)
+			}
+			return ld.Run(c, &probe.Sig{})
+		}, nil, false, true)
+		if v.Discard != nil {
+			evid.Discard(v.Discard.Error())
+			return
+		}
+		if v.Msg != "" {
+			rk.Fail(t, slot, c.Replay(fmt.Sprintf("run %d of the loaded script, pmode()=%d, modes of the runs %v", k+1, m, c.Modes)), "v2, run %d (pmode()=%d of %v): %s\nscript:\n%s", k+1, m, c.Modes, v.Msg, c.Texts[c.Root])
+		}
+		oc := "ok"
+		if v.Model.Err != nil {
+			oc = "error"
+		}
+		labels = append(labels, fmt.Sprintf("rerun/run-%d/%s", k+1, oc))
+	}
+	evid.Case(key, true, labels...)
+}
+
+var modeSeqs = [][]int64{{1, 2}, {1, 0}, {0, 1, 2}, {1, 1, 2}, {2, 1, 0}, {1, 2, 0}, {0, 2}, {1, 0, 2, 1}}
+
+// TestRunAgainOtherPath: a loaded v2 script is run again and takes another path (pmode() tells it which): a run that
+// failed inside a block after assigning names at the top level is followed by a run that reads such a name before
+// assigning it - an error in v2, whatever ran before - and by runs that go through; every run equals the reference
+// started from nothing.
+func TestRunAgainOtherPath(t *testing.T) {
+	rk.Check(t, "rerun", 7, evid.Scale(500, 5000), func(t *rapid.T) {
+		g := sgen.New(t)
+		g.V2 = true
+		g.Probes = true
+		g.Loops = true
+		g.Slices = true
+		g.MaxDepth = 2
+		g.Calls = []func(*sgen.G, int) *gen.Node{multiAssign}
+		pm := func(k int64) *gen.Node { return gen.NBin("==", gen.NCall("pmode"), i64(k)) }
+		var pre []*gen.Node
+		npre := rapid.IntRange(1, len(g.Names)).Draw(t, "predefined")
+		for _, n := range g.Names[:npre] {
+			ty := []sgen.Ty{sgen.TInt, sgen.TInt, sgen.TStr, sgen.TList, sgen.TMap, sgen.TFloat, sgen.TBool}[rapid.IntRange(0, 6).Draw(t, "ty")]
+			pre = append(pre, gen.NSet(n, g.LitOf(ty, 1)))
+			g.Env[n], g.Defined[n] = ty, true
+		}
+		victim := g.Names[rapid.IntRange(0, npre-1).Draw(t, "victim")]
+		body := g.Program(rapid.IntRange(1, 4).Draw(t, "size"), rapid.IntRange(1, 2).Draw(t, "nest"))
+		// the failing statement of mode 1, inside a block, after assignments in that block as well
+		fails := []func() []*gen.Node{
+			func() []*gen.Node { return []*gen.Node{gen.NCall("perr")} },
+			func() []*gen.Node {
+				return []*gen.Node{gen.NSet("z0", i64(0)), gen.NSet("q", gen.NBin("%", i64(1), id("z0")))}
+			},
+			func() []*gen.Node { return []*gen.Node{gen.NSet("q", id("never_defined"))} },
+			func() []*gen.Node {
+				return []*gen.Node{gen.NSet("l5", gen.NList(i64(1))), gen.NSet("q", gen.NBin("+", gen.NIndex(id("l5"), i64(5)), i64(1)))}
+			},
+			func() []*gen.Node { return []*gen.Node{gen.NSet("q", gen.NCall("pvoid"))} },
+		}
+		fk := rapid.IntRange(0, len(fails)-1).Draw(t, "fail")
+		inner := append([]*gen.Node{gen.NSet("blk1", i64(1)), gen.NSet(victim, i64(-7))}, fails[fk]()...)
+		wraps := []func(b []*gen.Node) *gen.Node{
+			func(b []*gen.Node) *gen.Node { return gen.NIf([]*gen.Node{pm(1)}, [][]*gen.Node{b}, nil, false) },
+			func(b []*gen.Node) *gen.Node {
+				return gen.NFor(gen.NSet("it", i64(0)), gen.NBin("<", id("it"), i64(3)), gen.NSet("it", gen.NBin("+", id("it"), i64(1))),
+					[]*gen.Node{gen.NIf([]*gen.Node{gen.NBin("&&", pm(1), gen.NBin("==", id("it"), i64(1)))}, [][]*gen.Node{b}, nil, false)})
+			},
+			func(b []*gen.Node) *gen.Node {
+				return gen.NForIn("el", gen.NList(i64(1), i64(2)), []*gen.Node{gen.NIf([]*gen.Node{pm(1)}, [][]*gen.Node{b}, nil, false)})
+			},
+			func(b []*gen.Node) *gen.Node {
+				return gen.NIf([]*gen.Node{gen.NBool(true)}, [][]*gen.Node{{gen.NSet("outer1", i64(1)), gen.NIf([]*gen.Node{pm(0)}, [][]*gen.Node{{gen.NCall("probe", str("mode0"))}}, b, true)}}, nil, false)
+			},
+		}
+		wk := rapid.IntRange(0, len(wraps)-1).Draw(t, "wrap")
+		tail := wraps[wk](inner)
+		at := rapid.IntRange(0, len(body)).Draw(t, "at")
+		prog := []*gen.Node{gen.NIf([]*gen.Node{pm(2)}, [][]*gen.Node{{gen.NCall("probe", str("early"), id(victim))}}, nil, false)}
+		prog = append(prog, pre...)
+		prog = append(prog, body[:at]...)
+		prog = append(prog, tail)
+		prog = append(prog, body[at:]...)
+		end := gen.NCall("probe", str("end"))
+		for _, n := range g.Names[:npre] {
+			end.Args = append(end.Args, id(n))
+		}
+		prog = append(prog, end)
+		c := sem.NewCase(gen.FixAll(prog))
+		mk := rapid.IntRange(0, len(modeSeqs)-1).Draw(t, "modes")
+		c.Modes = modeSeqs[mk]
+		judgeRuns(t, "rerun", c, fmt.Sprintf("rerun/%d/%d/%d/%s", fk, wk, mk, gen.Print(c.Scripts[c.Root], gen.Minimal{})), "rerun-other-path", fmt.Sprintf("rerun/fail-%d", fk), fmt.Sprintf("rerun/block-%d", wk), fmt.Sprintf("rerun/modes-%v", c.Modes))
+	})
+}
+
+// TestMutationDuringIterationV2: a for-in over a list sees what its body writes to positions it has not reached yet -
+// through the list's name, through an alias, through a container that holds it; `=` and `+=`.
+func TestMutationDuringIterationV2(t *testing.T) {
+	i := i64
+	n := 0
+	for via := 0; via < 4; via++ {
+		for off := int64(1); off <= 2; off++ {
+			for _, op := range []string{"=", "+="} {
+				var pre []*gen.Node
+				target := "l"
+				switch via {
+				case 1:
+					pre = []*gen.Node{gen.NSet("m", id("l"))}
+					target = "m"
+				case 2:
+					pre = []*gen.Node{gen.NSet("box", gen.NMap(str("k"), id("l"))), gen.NSet("m", gen.NIndex(id("box"), str("k")))}
+					target = "m"
+				case 3:
+					pre = []*gen.Node{gen.NSet("box", gen.NList(id("l"), i(0)))}
+				}
+				var write *gen.Node
+				idx := gen.NBin("+", id("p"), i(off))
+				if via == 3 {
+					write = gen.NAssign(op, []*gen.Node{gen.NIndex(id("box"), i(0), idx)}, []*gen.Node{gen.NBin("+", id("x"), i(100))})
+				} else {
+					write = gen.NAssign(op, []*gen.Node{gen.NIndex(id(target), idx)}, []*gen.Node{gen.NBin("+", id("x"), i(100))})
+				}
+				prog := append([]*gen.Node{gen.NSet("l", gen.NList(i(1), i(2), i(3), i(4), i(5))), gen.NSet("p", i(0))}, pre...)
+				prog = append(prog, gen.NForIn("x", id("l"), []*gen.Node{
+					gen.NCall("probe", str("pass"), id("p"), id("x")),
+					gen.NIf([]*gen.Node{gen.NBin("<", idx.Clone(), i(5))}, [][]*gen.Node{{write}}, nil, false),
+					gen.NSet("p", gen.NBin("+", id("p"), i(1)))}),
+					gen.NCall("probe", str("after"), id("l")))
+				judge(t, "iter-mutation", sem.NewCase(gen.FixAll(prog)), fmt.Sprintf("itermut/%d/%d/%s", via, off, op), true, "mutation-during-iteration-v2")
+				n++
+			}
+		}
+	}
+	progs := [][]*gen.Node{
+		{gen.NSet("rows", gen.NList(gen.NList(i(1)), gen.NList(i(1)), gen.NList(i(1)))), gen.NSet("p", i(0)),
+			gen.NForIn("r", id("rows"), []*gen.Node{gen.NAssign("+=", []*gen.Node{gen.NIndex(id("r"), i(0))}, []*gen.Node{id("p")}),
+				gen.NIf([]*gen.Node{gen.NBin("==", id("p"), i(0))}, [][]*gen.Node{{gen.NAssign("=", []*gen.Node{gen.NIndex(id("rows"), i(2))}, []*gen.Node{gen.NList(i(50))})}}, nil, false),
+				gen.NSet("p", gen.NBin("+", id("p"), i(1)))}), gen.NCall("probe", str("rows"), id("rows"))},
+		{gen.NSet("l", gen.NList(i(1), i(2), i(3))), gen.NSet("s", gen.NSlice(id("l"), nil, nil, nil, false)),
+			gen.NForIn("x", id("l"), []*gen.Node{gen.NAssign("=", []*gen.Node{gen.NIndex(id("s"), i(2))}, []*gen.Node{i(9)}), gen.NCall("probe", str("x"), id("x"))}), gen.NCall("probe", str("l-s"), id("l"), id("s"))},
+		// a map under iteration: a value written for a key that is (only one key left) certainly still to come
+		{gen.NSet("l", gen.NList(str("a"), str("b"), str("c"))), gen.NSet("k", i(0)),
+			gen.NForIn("x", id("l"), []*gen.Node{gen.NCall("probe", str("x"), id("x")), gen.NIf([]*gen.Node{gen.NBin("<", id("k"), i(2))}, [][]*gen.Node{{gen.NAssign("=", []*gen.Node{gen.NIndex(id("l"), gen.NBin("+", id("k"), i(1)))}, []*gen.Node{gen.NBin("+", id("x"), str("!"))})}}, nil, false),
+				gen.NSet("k", gen.NBin("+", id("k"), i(1)))})},
+	}
+	for k, p := range progs {
+		judge(t, "iter-mutation", sem.NewCase(gen.FixAll(p)), fmt.Sprintf("itermut/rows/%d", k), true, "mutation-during-iteration-v2")
+		n++
+	}
+	evid.Exhaustive("v2: write to a later position during for-in: via x offset x operator; rows", n)
+}
+
 func TestFixedDialect(t *testing.T) {
 	cases := [][]*gen.Node{
 		{gen.NCall("probe", str("x"), id("undefined_name"))},
@@ -588,6 +748,10 @@ func TestReplays(t *testing.T) {
 				t.Skipf("replay not loadable: %v", err)
 			}
 			c.V2 = true
+			if len(c.Modes) > 0 {
+				judgeRuns(t, "replay", c, "replay:"+c.Texts[c.Root], "replay")
+				return
+			}
 			v := sem.Decide(c, func() sem.ImplOut { return sem.RunV2(c, nil) }, nil, false, true)
 			if v.Msg != "" {
 				rk.Fail(t, "replay", r.Case, "v2: %s\nscript:\n%s", v.Msg, c.Texts[c.Root])
